@@ -60,7 +60,8 @@ class C17(Prop):
     rule = (
         "integer-valued data (so that every dtype can hold it; a 'big' stream with values up to 4e9 where int64 products "
         "overflow) passed as list of ints / floats / mixed, tuple, numpy int64 / int32 / float64, polars Int64 / Float64 "
-        "Series to: every score class (degrees incl. the Python ints -2, -1, 0, 1, 2, 3), identification_function, decompose, "
+        "Series (observations and predictions also in different containers; two forecast columns also as a list / tuple of "
+        "rows mixing ints and floats) to: every score class (degrees incl. the Python ints -2, -1, 0, 1, 2, 3), identification_function, decompose, "
         "compute_bias and compute_marginal with a numeric feature, isotonic_regression (all functionals). Each container's "
         "result is compared with the float64-array result (1e-9 relative), and the float64 score with the Float model. "
         "Additionally sf(y, z, w) == average(score_per_obs, w) and == sf(y, z, c*w). Non-trivial = container differs from "
@@ -79,8 +80,19 @@ class C17(Prop):
             z = [rng.randint(1, hi) for _ in range(n)]
             c = {"stream": ep, "y": y, "z": z, "w": None if rng.random() < 0.4 else [rng.randint(1, 4) for _ in range(n)],
                  "container": rng.choice(CONTAINERS), "big": big}
+            if rng.random() < 0.4:
+                # observations and predictions in DIFFERENT containers / dtypes (float y_obs with integer y_pred, ...)
+                c["zcontainer"] = rng.choice(CONTAINERS)
+            if ep in ("decompose", "bias", "marginal") and rng.random() < 0.3:
+                # two forecast columns handed over as a Python list / tuple of rows mixing ints and floats
+                c["rows2d"] = rng.choice(["list", "tuple"])
+                # each column starts with a whole number written as int and continues with non-integer floats
+                c["z"] = [z[0]] + [v + rng.choice([0.5, 0.25, 0.75]) for v in z[1:]]
+                c["z2"] = [z[0] + 1] + [v + rng.choice([0.5, 0.25, 1.5]) for v in z[1:]]
             if big and c["container"] == "np_int32":
                 c["container"] = "np_int64"
+            if big and c.get("zcontainer") == "np_int32":
+                c["zcontainer"] = "np_int64"
             if ep == "score":
                 kind = rng.choice(["hes", "hqs", "squared_error", "poisson", "gamma", "pinball", "logloss"])
                 c.update(kind=kind, h=rng.choice([-2, -1, 0, 1, 2, 3, 0.5, 2.5, -1.0]), level=rng.choice([0.5, 0.25, 0.8]))
@@ -103,7 +115,17 @@ class C17(Prop):
 
     def call(self, case, container):
         y = conv(case["y"], container)
-        z = conv(case["z"], container)
+        if case.get("rows2d"):
+            z = None
+        else:
+            z = conv(case["z"], case.get("zcontainer", container) if container != "np_float64" else container)
+        if case.get("rows2d"):
+            if container == "np_float64":
+                z = np.column_stack([np.array(case["z"], dtype=float), np.array(case["z2"], dtype=float)])
+            else:
+                rows = [[int(a) if float(a).is_integer() else float(a), int(b) if float(b).is_integer() else float(b)]
+                        for a, b in zip(case["z"], case["z2"])]  # whole numbers are written as ints (the first row always)
+                z = rows if case["rows2d"] == "list" else tuple(tuple(r) for r in rows)
         w = None if case["w"] is None else conv(case["w"], container)
         ep = case["stream"]
         if ep == "score":
